@@ -10,7 +10,7 @@ DATA = 0x100000
 DATA_LEN = 0x48000          # 288 KiB of patterned device memory
 
 
-def build(max_cmd, max_ack, ops, pend=None, retry=None, resp_ms=5, addr_base=DATA, data_len=None, busy=None):
+def build(max_cmd, max_ack, ops, pend=None, retry=None, resp_ms=5, addr_base=DATA, data_len=None, busy=None, slow=None):
     """ops: list of ('r', addr, n) | ('w', addr, n, seed).  pend: list of pending counts per
     transaction after open (cycled)."""
     w = std_world(max_cmd, max_ack, resp_ms)
@@ -60,6 +60,10 @@ def build(max_cmd, max_ack, ops, pend=None, retry=None, resp_ms=5, addr_base=DAT
                 wtoks += [5, -1, 2 * p + 1] + [0, announce, 4, silent] * p + [1, 0]
             else:
                 wtoks += [5, -1, p + 1] + [0, 1] * p + [1, 0]
+    if slow and not pend:
+        # a slow but conforming device: the first transaction of the operations is answered, without any pending
+        # acknowledge, after `slow` real milliseconds of silence - less than the response time it advertises
+        wtoks += [6, ntx_open, 5, -1, 2, 4, slow, 1, 0]
     meta = dict(max_cmd=max_cmd, max_ack=max_ack, ops=ops, expect=expect, ntx=ntx, pend=pend or [], retry=retry)
     return ctl_case(wtoks, optoks, meta)
 
@@ -293,6 +297,9 @@ def gen_cases(ck):
     # the transfer must succeed.  (One-sided timing: a slow machine only makes the host later, never too early.)
     cases.append(build(64, 64, [("r", DATA + 5, 40), ("w", DATA + 9, 30, 3)], pend=[1], resp_ms=40, busy=(400, 300)))
     cases.append(build(64, 64, [("r", DATA + 5, 40)], pend=[2], resp_ms=30, busy=(250, 200)))
+    # devices that advertise a long maximum response time and use it (no pending acknowledge): "all response-time values"
+    cases.append(build(64, 64, [("r", DATA + 5, 40), ("w", DATA + 9, 30, 3)], resp_ms=2600, slow=2150))
+    cases.append(build(1024, 1024, [("w", DATA + 2, 100, 5)], resp_ms=60000, slow=2050))
     # pending acknowledges (16 bytes) on the shortest data acknowledges: whole reads of 1..3 bytes and tail chunks of
     # 1..3 bytes, single-byte writes
     for p in (1, 2):
